@@ -2772,3 +2772,21 @@ def option_partial_cmp(ex, m, a, fr, dest):
     if op == 'partial_cmp':
         return some(ordering(v))
     return {'lt': v < 0, 'le': v <= 0, 'gt': v > 0, 'ge': v >= 0}[op]
+
+
+@model(r'(?:core|std|alloc)::slice::<impl \[.*\]>::(is_sorted_by_key|is_sorted_by|is_sorted)(?:::<.*>)?')
+def slice_is_sorted(ex, m, a, fr, dest):
+    from .interp import seq_items
+    items, lo, hi = seq_items(a[0])
+    kind = m.group(1)
+    xs = items[lo:hi]
+    if kind == 'is_sorted_by_key':
+        keys = [ex.call_closure(a[1], [Ref([x], 0)]) for x in xs]
+        return all(generic_cmp(ex, keys[i], keys[i + 1], fr) <= 0 for i in range(len(keys) - 1))
+    if kind == 'is_sorted_by':
+        for i in range(len(xs) - 1):
+            r = ex.call_closure(a[1], [Ref([xs[i]], 0), Ref([xs[i + 1]], 0)])
+            if not ex.branch(r, 'is_sorted_by'):
+                return False
+        return True
+    return all(generic_cmp(ex, xs[i], xs[i + 1], fr) <= 0 for i in range(len(xs) - 1))
